@@ -25,18 +25,31 @@ from . import c06 as _v
 PID = "C19"
 N_CASE = 16
 N_WS = 16
+# thorough tier: lex1-level case flip at N = 24, per-rule case-flip lemmas at N = 44, white-space runs 1..4 at N = 20
+N_CASE_T, N_LEMMA_T, N_WS_T = 24, 44, 20
+
+
+def tier_bounds(tier: str):
+    return (N_CASE, None, N_WS, 3) if tier == "quick" else (N_CASE_T, N_LEMMA_T, N_WS_T, 4)
 
 
 def lexer_obligations(sess: rx.Session, tier: str) -> List[rx.Obligation]:
     obs: List[rx.Obligation] = []
     layout = ls.layout_chars(sess.alphabet.chars)
-    obs.append(rx.ob_caseflip(sess, "caseflip:lex1", "case", N_CASE))
+    n_case, n_lemma, n_ws, runs = tier_bounds(tier)
+    n_case = n_case if n_case in sess.engines else min(sess.engines)
+    n_ws = n_ws if n_ws in sess.engines else min(sess.engines)
+    obs.append(rx.ob_caseflip(sess, f"caseflip:lex1[N={n_case}]", "case", n_case))
+    if n_lemma is not None and n_lemma in sess.engines:
+        for nm in sess.engines[n_lemma].names:
+            obs.append(rx.ob_caseflip_rule(sess, f"caseflip-lemma[N={n_lemma}]:{nm}", "case-lemma(per rule)", n_lemma, nm))
     for op, kind in ls.BINARY_OPERATORS.items():
-        obs.append(rx.ob_operator(sess, f"layout:{op}", "whitespace", N_WS, op, kind, layout, 3, layout=layout))
+        obs.append(rx.ob_operator(sess, f"layout:{op}", "whitespace", n_ws, op, kind, layout, runs, layout=layout))
     for op, kind in ls.PREFIX_OPERATORS.items():
-        obs.append(rx.ob_operator(sess, f"layout:{op}", "whitespace", N_WS, op, kind, layout, 3, leading_ws=False, layout=layout))
-    obs.append(rx.ob_ws_token(sess, "layout:WS-maximal-run", "whitespace", N_WS, "WS", layout,
+        obs.append(rx.ob_operator(sess, f"layout:{op}", "whitespace", n_ws, op, kind, layout, runs, leading_ws=False, layout=layout))
+    obs.append(rx.ob_ws_token(sess, "layout:WS-maximal-run", "whitespace", n_ws, "WS", layout,
                               also=list(ls.BINARY_OPERATORS.values())))
+    obs.sort(key=lambda o: -o.N)
     return obs
 
 
@@ -53,7 +66,7 @@ def lexer_layer(run: Run, sess: Optional[rx.Session] = None, progress: bool = Fa
     tier = run.tier
     if sess is None:
         try:
-            sess = rx.Session(run, {N_CASE, N_WS})
+            sess = rx.Session(run, {b for b in tier_bounds(tier)[:3] if b})
             sess.fill(run)
             sess.validate(run, str(REPO / "tests"), 400 if tier == "quick" else 4000)
         except rx.NotEncodable as e:
@@ -61,14 +74,17 @@ def lexer_layer(run: Run, sess: Optional[rx.Session] = None, progress: bool = Fa
             run.inconclusive("encode-lexer", "encode", f"not encodable: {e}")
             return None
     layout = ls.layout_chars(sess.alphabet.chars)
-    run.bounds.update({"lexer_text_length_N": N_CASE, "whitespace_run_length": "1..3 on each side of an operator",
+    n_case, n_lemma, n_ws, runs = tier_bounds(tier)
+    run.bounds.update({"lexer_text_length_N": {"case flip of lex1": n_case, "per-rule case-flip lemmas": n_lemma, "white space": n_ws},
+                       "whitespace_run_length": f"1..{runs} on each side of an operator",
                        "whitespace_characters": [f"U+{ord(c):04X}" for c in layout],
                        "case_flips": "any subset of ASCII letter positions (two coupled symbolic texts)"})
-    run.outside += ["texts longer than 16 characters for the case-flip obligation (keywords and literal prefixes are shorter)",
-                    "white-space runs longer than 3 next to an operator (the WS-maximal-run obligation covers runs up to 16)"]
+    run.outside += [f"texts longer than {n_case} characters for the lex1-level case-flip obligation (thorough tier: the per-rule "
+                    "lemmas, which together imply it, reach N = 44)",
+                    f"white-space runs longer than {runs} next to an operator (the WS-maximal-run obligation covers runs up to {n_ws})"]
     sess.drive(lexer_obligations(sess, tier), timeout=120 if tier == "quick" else 600, progress=progress)
     if tier == "thorough" or os.environ.get("VERIF_SELFTEST"):
-        rx.selftest(run, sess.spec, MUTANTS, {N_CASE, N_WS}, [], lambda s2: lexer_obligations(s2, tier), timeout=120, progress=progress)
+        rx.selftest(run, sess.spec, MUTANTS, {N_CASE, N_WS}, [], lambda s2: lexer_obligations(s2, "quick"), timeout=120, progress=progress)
     return sess
 
 
